@@ -102,13 +102,13 @@ def tla_bool(b):
     return "TRUE" if b else "FALSE"
 
 
-def write_mc_v1(sc, cfg, rows, invariants=(), properties=(), spec="Spec"):
-    name = "MC_" + cfg["name"]
+def write_mc_v1(sc, cfg, rows, invariants=(), properties=(), spec="Spec", module="PrioV1", prefix="MC_"):
+    name = prefix + cfg["name"]
     uni = cfg["prios"]
     chans = list(range(1, cfg["nc"] + 1))
     tbl = " @@\n  ".join("<<%s, %d>> :> %s" % (tla_seq(r["ps"]), r["d"], tla_seq(r["inc"])) for r in rows)
     with open(os.path.join(sc, name + ".tla"), "w") as f:
-        f.write("---- MODULE %s ----\nEXTENDS PrioV1\n" % name)
+        f.write("---- MODULE %s ----\nEXTENDS %s\n" % (name, module))
         f.write("c_Universe == {%s}\n" % ", ".join(map(str, uni)))
         f.write("c_DivTbl ==\n  %s\n" % tbl)
         f.write("c_InitChan == %s\n" % tla_fn(uni, lambda p: cfg["initchan"][str(p)]))
